@@ -181,6 +181,48 @@ def run(ck):
                        sorted({s.caller.id for s in rm}), sorted({s.caller.id for s in mk})), site.where(),
                    ok_detail="effects: %s" % sorted(labs))
 
+    # ---- R7b: a creation that tolerates a missing directory next to directory creation ----------------------------------
+    def tolerant_creates(fid):
+        """File::create sites in fid whose NotFound error is swallowed (the operation is skipped instead of failing)."""
+        fn = prog.fns[fid]
+        out = []
+        for bb, t, c in calls_named(fn, "std::fs::File::create", "std::fs::File::create_new"):
+            re = pt.result_edges(fn, bb)
+            if not re or not re["err"]:
+                continue
+            err_region = set()
+            for e in re["err"]:
+                err_region |= cfg.reachable(fn, [e[1]])
+            for g in guards.find_bool_guards(fn, lambda e: isinstance(e, tuple) and e[0] == "call" and "ErrorKind" in e[1] and e[1].endswith("::eq")):
+                if g["bb"] not in err_region:
+                    continue
+                nf = False
+                for a in g["expr"][2]:
+                    pv = guards.promoted_value(fn, a)
+                    if pv and pv[0] == "enum" and pv[2] == "NotFound":
+                        nf = True
+                if not nf:
+                    continue
+                tr = cfg.dominated_by_edge(fn, g["true_edge"])
+                returns_err = any((s_["k"] == "assign" and s_["lhs"]["l"] == 0 and s_["rv"]["k"] == "agg" and s_["rv"].get("variant") == "Err")
+                                  for b_ in tr for s_ in fn.blocks[b_]["stmts"]) or \
+                    any(fn.blocks[b_]["term"]["k"] == "call" and fn.blocks[b_]["term"]["dest"]["l"] == 0 for b_ in tr)
+                if not returns_err:
+                    out.append((fn, bb, t))
+        return out
+    for site, cl, agg in launches:
+        reach = cg.closure([cl.id])
+        tol = [x for f in sorted(reach) for x in tolerant_creates(f)]
+        mk = [s_ for s_, lab in cg.fs_write_sites() if s_.caller.id in reach and lab == "mkdir" and
+              not df.mentions_deep(s_.caller, df.operand_expr(s_.caller, s_.term["args"][0]), lambda x: df.is_const(x, ".pc"))]
+        for fn_, bb_, t_ in tol:
+            ck.require(not mk, "C06-R7", "missing-directory-tolerant creation in %s next to directory creation in parallel region %s" % (
+                fn_.id, cl.id.split("::")[-1]),
+                "%s skips its output when the directory does not exist, while other workers of the same parallel region create directories "
+                "(%s): whether the file is written depends on the schedule; the sequential driver writes all rejects before anything is saved" % (
+                    fn_.id, sorted({s_.caller.id for s_ in mk})), fn_.where(t_),
+                ok_detail="no directory creation in the same region")
+
     # ---- R8 names --------------------------------------------------------------------------------------------------------------
     adds = calls_named(par, "FilenameDistributor::<T>::add")
     ck.floor("C06-R8", "FilenameDistributor::add calls", len(adds), 1)
